@@ -469,6 +469,7 @@ fn test_wright_omega() {
 #[cfg(feature = "verif-hooks")]
 pub mod verif_hooks_expcone {
     use super::*;
+    pub use crate::solver::core::ScalingStrategy;
 
     pub fn is_primal_feasible<T: FloatT>(k: &ExponentialCone<T>, s: &[T]) -> bool {
         NonsymmetricCone::is_primal_feasible(k, s)
